@@ -11,6 +11,7 @@
 From BP Require Import Base.Prelude Model.Types Model.Object Model.Eq Model.Encode Model.Decode.
 From BP Require Import Model.History Model.C07Ops Model.C07Step Model.C07Wire Model.WellFormed.
 From BP Require Import Proofs.C07InvP Proofs.C07LoadP Proofs.C07HistP Proofs.C07WireP Proofs.C07ParseP Proofs.C07EncP Proofs.C07ObsP.
+From BP Require Import Model.Json Proofs.C07JsonP.
 
 (* ---- the invariant: initial states ---- *)
 Theorem C07_inv_init_new : forall sc c, Inv sc (new sc c).
@@ -21,7 +22,7 @@ Theorem C07_inv_init_construct : forall sc c kw, Inv sc (construct sc c kw).
 Proof. exact inv_construct. Qed.
 Print Assumptions C07_inv_init_construct.
 
-Theorem C07_inv_init_from_dict : forall sc c kw, Inv sc (from_dict_cls sc c kw).
+Theorem C07_inv_init_from_dict : forall sc c kw, Inv sc (C07Ops.from_dict_cls sc c kw).
 Proof. exact inv_from_dict_cls. Qed.
 Print Assumptions C07_inv_init_from_dict.
 
@@ -167,6 +168,33 @@ Theorem C07_field_chunk : forall enc sc f sel v chunk,
 Proof. exact field_chunk. Qed.
 Print Assumptions C07_field_chunk.
 
+(* ---- the JSON clauses, over the dict/JSON model of C04 (Model/Json.v): to_dict — both casings, include_default_values
+        false AND true — holds the key of the selected member (also when it holds its default) and of no unselected member
+        ([keys_distinct]: distinct fields have distinct keys under the casing; name collisions are C19's subject) ---- *)
+Theorem C07_json_observable : forall cs incl sc o,
+  wf_schema sc = true -> Inv sc o -> selected_values_ok sc o -> keys_distinct cs sc (ocls o) ->
+  forall g, (g < cngroups (get_class sc (ocls o)))%nat ->
+    match which_one_of o g with
+    | Some i =>
+        exists f, nth_error (cfs sc o) i = Some f /\ In (key_of_field cs f) (jkeys (to_dict cs incl sc o)) /\
+                  forall j f', j <> i -> nth_error (cfs sc o) j = Some f' -> fgroup f' = Some g ->
+                               ~ In (key_of_field cs f') (jkeys (to_dict cs incl sc o))
+    | None =>
+        forall j f', nth_error (cfs sc o) j = Some f' -> fgroup f' = Some g ->
+                     ~ In (key_of_field cs f') (jkeys (to_dict cs incl sc o))
+    end.
+Proof. exact to_dict_observable. Qed.
+Print Assumptions C07_json_observable.
+
+(* from_dict of the JSON model (JSON values converted by Message._from_dict_init as modelled by C04) *)
+Theorem C07_inv_json_from_dict_cls : forall sc c j o, Json.from_dict_cls sc c j = Ok o -> Inv sc o.
+Proof. exact json_from_dict_cls_inv. Qed.
+Print Assumptions C07_inv_json_from_dict_cls.
+
+Theorem C07_inv_json_from_dict_inst : forall sc o j o', Inv sc o -> Json.from_dict_inst sc o j = Ok o' -> Inv sc o'.
+Proof. exact json_from_dict_inst_inv. Qed.
+Print Assumptions C07_inv_json_from_dict_inst.
+
 (* ---- non-vacuity ---- *)
 Definition ex_sc : schema :=
   mkS (builtin_classes ++
@@ -241,3 +269,11 @@ Proof.
   split; [reflexivity|]. split; [reflexivity|].
   intros H. apply (H 0%nat 0%nat). reflexivity.
 Qed.
+
+(* JSON: a = 0 assigned (default), t = 9: with include_default_values the keys are a, t (and no b, c, d, e);
+   without it a is still there *)
+Example C07_ex_json :
+  let o := setattr ex_sc (setattr ex_sc (new ex_sc 11) 3 (PInt 9)) 0 (PInt 0) in
+  jkeys (to_dict CAMEL true ex_sc o) = [[x61]; [x74]] /\ jkeys (to_dict CAMEL false ex_sc o) = [[x61]; [x74]] /\
+  jkeys (to_dict SNAKE true ex_sc (new ex_sc 11)) = [[x74]].
+Proof. vm_compute. repeat split. Qed.
